@@ -12,7 +12,7 @@ CLAIMED = {
 
  'C01': ('proptest-generated diffs x tagged option sets; independent terminal model + reference expected-text function; sequence equality oracle',
          'Exploration: every generated hunk line must appear exactly once, in order, with the expected text and under its own file header, as read back from the rendered cells by an independent terminal model (elements identified by reserved background tags).',
-         'Trusted: terminal model, reference expected-text function, tag attribution; merge-conflict regions not generated yet.', '3/C01'),
+         'Trusted: terminal model, reference expected-text function, tag attribution; merge-conflict regions of combined diffs are generated (two comparisons against the ancestor expected).', '3/C01'),
  'C10': ('proptest-generated section sequences; metamorphic concatenation law + repeat-run determinism (in-process and real binary)',
          'Exploration: delta(S1..Sn) must equal delta(S1)..delta(Sn) byte for byte for generated sequences of git file sections of every kind under all modes; the same case is re-run with fresh hash states and in separate processes and must give identical bytes (also --show-config).',
          'Trusted: section generator emits complete git file diffs; max-line-length kept above header lines.', '3/C10'),
@@ -27,7 +27,7 @@ CLAIMED = {
 
  'C04': ('proptest-generated marker-free text streams with sentinels, alone and interleaved with rendered sections; byte-identity oracle with independently computed permitted transforms',
          'Exploration: free text (with escape sequences, CR variants, invalid UTF-8, NUL) must come out byte for byte (after CR normalisation / lossy UTF-8), exactly once, in order, and correctly interleaved with the rendered sections, under all option sets.',
-         'Trusted: marker set derived from handler gates; constructive CR cases; lines kept below max-line-length (truncation rule not asserted).', '3/C04'),
+         'Trusted: marker set derived from handler gates; constructive CR cases; lines built around max-line-length: longer in bytes only must pass unchanged, wider ones must show prefix + mark.', '3/C04'),
 
  'C05': ('proptest-generated two-way diffs x tagged option sets with number-format grammar; reference line counter; gutter cells read by tag',
          'Exploration: the integers shown in the number cells of every rendered row must equal what an independent old/new counter gives for that hunk line (both views, all generated formats); continuation rows carry none; hunk-header rows show the new-file start and the path.',
@@ -35,7 +35,7 @@ CLAIMED = {
 
  'C07': ('proptest-generated boundary-straddling diffs x tagged side-by-side option sets; panels split at the gutters; geometry invariants + fragment reassembly oracle',
          'Exploration: for every generated case the decoded side-by-side rows must respect the configured width, a fixed right-panel column, side exclusivity of removed/added styling, lossless reassembly of every wrapped line per side, truncation only after all allowed rows (with mark and prefix), and row sharing of paired lines at maximal distance.',
-         'Trusted: terminal model and unicode-width tables; line numbers on with {nm} left / {np} right formats; ansi fill method not covered.', '3/C07'),
+         'Trusted: terminal model and unicode-width tables; line numbers on with {nm} left / {np} right formats; a quarter of the workers run with a pseudo-terminal as stdout (ansi fill); gutters without a number placeholder are judged per side as a whole.', '3/C07'),
 
  'C06': ('exhaustive enumeration of all string pairs up to length 4 over a 4-symbol alphabet + proptest-generated realistic sub-hunks; cell classes read by tag; edit-validity / pairing oracle',
          'Exploration with an exhaustive small scope: every ordered pair of strings of length <= 4 over {a,b,blank,;} (116 281 pairs at the default distance, a third of them at distances 0 and 1) plus thousands of random sub-hunks must satisfy: un-emphasised text equal on both lines of a pair, no emphasis on unpaired/unchanged/identical lines, single contiguous stretch for single-run edits, balanced pairing, i-th-with-i-th at distance 1, whitespace-only differences at distance 0.',
@@ -83,6 +83,9 @@ for p in props:
     if p['id'] in CLAIMED:
         tech, text, note, ref = CLAIMED[p['id']]
         level = 'fault_enumeration' if p['id'] == 'C18' else 'exploration'
+        if p['id'] not in ('C18', 'C20'):
+            raw = {'C03': ' plus a raw decoder (C03R: option-set header + stdin bytes)', 'C04': ' plus a raw decoder (C04R: marker-free text, stdout = lossy(stdin))', 'C09': ' plus a raw decoder (C09R: hostile text without control bytes)'}.get(p['id'], '')
+            tech += '; thorough tier: coverage-guided libFuzzer campaign (cargo-fuzz target fuzz_prop: bytes -> choice tape -> the same generator and oracle in-target' + raw + '), every recorded failure confirmed by replay in the release build and shrunk'
         checks.append({
             'property_id': p['id'],
             'quick_cmd': f"./check {p['id']} --tier quick",
@@ -105,10 +108,10 @@ m = {
    'source_commits': hook_commits,
    'add_only': True,
  },
- 'engines': [{'name': 'vcheck', 'path': 'harness/vcheck', 'serves_properties': sorted(CLAIMED), 'kind_free_text': 'proptest-driven choice-tape generators + independent oracles (terminal model, reference functions), supervisor/worker processes, real-binary cross-check'}],
+ 'engines': [{'name': 'vcheck', 'path': 'harness/vcheck', 'serves_properties': sorted(CLAIMED), 'kind_free_text': 'proptest-driven choice-tape generators + independent oracles (terminal model, reference functions), supervisor/worker processes, real-binary cross-check; the same generators and oracles driven by libFuzzer (harness/fuzz, target fuzz_prop) in the thorough tier'}],
  'checks': checks,
  'not_applicable': na,
- 'notes': 'All checks: VERIF_SEED (default 0) and VERIF_TIER honoured; exit 0 held / 1 VIOLATION / 2 infrastructure. Known findings in known_findings.json (read-only at run time).',
+ 'notes': 'All checks: VERIF_SEED (default 0) and VERIF_TIER honoured; exit 0 held / 1 VIOLATION / 2 infrastructure. Known findings in known_findings.json (read-only at run time). VERIF_FUZZ_SECS=<n> sets the wall-clock budget of the coverage-guided phase (default: 0 in the quick tier, 240 s - C03 420 s - in the thorough tier; not applicable to C18/C20, which are decided on separate processes). seeded/ holds sub-agent-made breaking changes with their demonstrations; DESIGN.md §12 records which check catches which.',
 }
 json.dump(m, open(os.path.join(ROOT, 'MANIFEST.json'), 'w'), indent=1)
 print('claimed', sorted(CLAIMED), 'hooks', hook_commits)
